@@ -20,6 +20,9 @@ pub struct ChainStep {
     pub dst: Vec<usize>,
     /// registers handed to this call as JSON text (rendered from the tree) instead of JSONB
     pub text_regs: Vec<usize>,
+    /// fault: this register is handed over as JSON text that does not parse (a malformed row). The step has no result and
+    /// nothing is required of it; the steps after it are judged as always.
+    pub bad_text: Option<(usize, Vec<u8>)>,
 }
 
 /// What the library sees when register `i` is passed as text: the tree the text denotes.
@@ -36,6 +39,15 @@ pub struct Case {
     /// the whole history appends to ONE output buffer (and one offsets vector), the way a column builder does;
     /// each step's result is the slice it appended
     pub shared_buffer: bool,
+    /// path selections run on one compiled `Selector` per distinct path, kept for the whole history
+    pub reuse_selectors: bool,
+}
+
+fn sel_key(op: &Op) -> String {
+    match op {
+        Op::Select { path, api, .. } => format!("{:?}/{}", path, api.mode()),
+        _ => String::new(),
+    }
 }
 
 pub struct Chain;
@@ -144,7 +156,21 @@ impl Scenario for Chain {
         let mut steps = vec![];
         for _ in 0..len {
             let kind = *r.pick(&kinds);
-            let op = opgen::gen_op(&mut r, kind, &cur, &ocfg);
+            let mut op = opgen::gen_op(&mut r, kind, &cur, &ocfg);
+            // the same path applied to another document: what a compiled selector is for
+            if let Op::Select { path, api, v } = &mut op {
+                let earlier: Vec<&ChainStep> = steps.iter().filter(|s: &&ChainStep| matches!(&s.op, Op::Select { .. })).collect();
+                if !earlier.is_empty() && r.chance(1, 3) {
+                    if let Op::Select { path: p0, api: a0, .. } = &earlier[r.idx(earlier.len())].op {
+                        let target = r.idx(cur.len());
+                        if !(p0.has_filter() || p0.predicate.is_some()) || cur[target].node_count() <= 2000 {
+                            *path = p0.clone();
+                            *api = *a0;
+                            *v = target;
+                        }
+                    }
+                }
+            }
             let reads = op.reads();
             let mut text_regs: Vec<usize> = vec![];
             for (pos, reg) in reads.iter().enumerate() {
@@ -154,6 +180,15 @@ impl Scenario for Chain {
             }
             if op.second_text_needs_first_text() && reads.len() == 2 && !text_regs.contains(&reads[0]) {
                 text_regs.clear();
+            }
+            // a malformed text row now and then
+            if !text_regs.is_empty() && r.chance(ocfg.fail_pct, 200) {
+                let cands: Vec<usize> = reads.iter().enumerate().filter(|(pos, reg)| op.arg_accepts_text(*pos) && (text_regs.contains(reg) || *pos == 1) && (reads.len() < 2 || reads[0] != reads[1])).map(|(_, reg)| *reg).collect();
+                if !cands.is_empty() {
+                    let bad = Some((cands[r.idx(cands.len())], r.pick(crate::scen_batch::BAD_TEXTS).to_vec()));
+                    steps.push(ChainStep { op, dst: vec![], text_regs, bad_text: bad });
+                    continue;
+                }
             }
             let results: Vec<MVal> = match model::apply(&op, &model_inputs(&cur, &text_regs)) {
                 ModelOut::Wrote(Ok(v)) => v,
@@ -169,10 +204,11 @@ impl Scenario for Chain {
                     cur[dst[i]] = res.clone();
                 }
             }
-            steps.push(ChainStep { op, dst, text_regs });
+            steps.push(ChainStep { op, dst, text_regs, bad_text: None });
         }
         let styles = (0..nregs).map(|_| if r.chance(1, 2) { mval::TextStyle::default() } else { gen::gen_text_style(&mut r) }).collect();
-        Case { regs, styles, steps, shared_buffer: r.chance(1, 4) }
+        let shared_buffer = r.chance(1, 4);
+        Case { regs, styles, steps, shared_buffer, reuse_selectors: r.chance(1, 2) }
     }
 
     fn exec(&self, case: &Case, stats: &mut Stats) -> RunOut<Case> {
@@ -186,6 +222,14 @@ impl Scenario for Chain {
         let mut shared_offs: Vec<u64> = Vec::new();
         if case.shared_buffer {
             stats.inc("probe/shared_buffer_history");
+        }
+        let mut selectors: std::collections::BTreeMap<String, jsonb::jsonpath::Selector<'static>> = Default::default();
+        if case.reuse_selectors {
+            for st in &case.steps {
+                if let Some(sel) = ops::make_selector(&st.op) {
+                    selectors.entry(sel_key(&st.op)).or_insert(sel);
+                }
+            }
         }
         for (si, st) in case.steps.iter().enumerate() {
             let op = &st.op;
@@ -209,7 +253,23 @@ impl Scenario for Chain {
             }
             // a register passed as text must be renderable; a shrunk case may have broken that: fall back to JSONB
             let text_regs: Vec<usize> = st.text_regs.iter().copied().filter(|i| *i < mregs.len() && !mregs[*i].has_nonfinite()).collect();
+            if let Some((reg, bytes)) = &st.bad_text {
+                // fault: a malformed text row. Whatever the call does with it is not judged; it must not disturb later steps
+                if *reg < bregs.len() {
+                    stats.inc("probe/unparsable_text_step");
+                    let mut args: Vec<Vec<u8>> = bregs.iter().enumerate().map(|(i, b)| if text_regs.contains(&i) { mval::to_text(&mregs[i], case.styles.get(i).unwrap_or(&mval::TextStyle::default())).into_bytes() } else { b.clone() }).collect();
+                    args[*reg] = bytes.clone();
+                    let mut buf = Vec::new();
+                    let mut offs = Vec::new();
+                    let _ = guard(|| ops::call(op, &args, &mregs, &mut buf, &mut offs));
+                }
+                continue;
+            }
             let want = model::apply(op, &model_inputs(&mregs, &text_regs));
+            let reused = selectors.get(&sel_key(op)).filter(|_| matches!(op, Op::Select { api, .. } if !api.accepts_text()));
+            if reused.is_some() {
+                stats.inc("probe/compiled_selector_reused");
+            }
             let args: Vec<Vec<u8>> = if text_regs.is_empty() {
                 bregs.clone()
             } else {
@@ -220,13 +280,13 @@ impl Scenario for Chain {
             let mut offs = Vec::new();
             let got = if case.shared_buffer {
                 let (b0, o0) = (shared_buf.len(), shared_offs.len());
-                let g = guard(|| ops::call(op, &args, &mregs, &mut shared_buf, &mut shared_offs));
+                let g = guard(|| ops::call_with(op, &args, &mregs, &mut shared_buf, &mut shared_offs, reused));
                 // this step's result is what it appended; offsets are positions in the shared buffer
                 buf = shared_buf.get(b0..).map(|s| s.to_vec()).unwrap_or_default();
                 offs = shared_offs.get(o0..).map(|s| s.iter().map(|o| o.wrapping_sub(b0 as u64)).collect()).unwrap_or_default();
                 g
             } else {
-                guard(|| ops::call(op, &args, &mregs, &mut buf, &mut offs))
+                guard(|| ops::call_with(op, &args, &mregs, &mut buf, &mut offs, reused))
             };
             let got = match got {
                 Ok(g) => g,
@@ -369,6 +429,11 @@ impl Scenario for Chain {
             c.shared_buffer = false;
             out.push(c);
         }
+        if case.reuse_selectors {
+            let mut c = case.clone();
+            c.reuse_selectors = false;
+            out.push(c);
+        }
         if n > 1 {
             // the violating step is the last executed one: try it alone, then drop prefixes / single steps
             for keep in [1usize, 2, 3] {
@@ -435,8 +500,10 @@ impl Scenario for Chain {
             "registers": case.regs.iter().map(mval::to_replay).collect::<Vec<_>>(),
             "registers_json": case.regs.iter().map(mval::to_json).collect::<Vec<_>>(),
             "registers_hex": case.regs.iter().map(|r| mval::hex(&mval::encode(r))).collect::<Vec<_>>(),
-            "history": case.steps.iter().map(|s| json!({"call": s.op.to_json(), "dst": s.dst, "text_regs": s.text_regs})).collect::<Vec<_>>(),
+            "history": case.steps.iter().map(|s| json!({"call": s.op.to_json(), "dst": s.dst, "text_regs": s.text_regs,
+                "bad_text": s.bad_text.as_ref().map(|(p, b)| json!({"reg": p, "hex": mval::hex(b)}))})).collect::<Vec<_>>(),
             "shared_buffer": case.shared_buffer,
+            "reuse_selectors": case.reuse_selectors,
             "styles": case.styles.iter().map(mval::style_to_json).collect::<Vec<_>>(),
         })
     }
@@ -449,10 +516,14 @@ impl Scenario for Chain {
                 op: Op::from_json(&s["call"])?,
                 dst: s["dst"].as_array().map(|a| a.iter().filter_map(|x| x.as_u64().map(|v| v as usize)).collect()).unwrap_or_default(),
                 text_regs: s["text_regs"].as_array().map(|a| a.iter().filter_map(|x| x.as_u64().map(|v| v as usize)).collect()).unwrap_or_default(),
+                bad_text: match s.get("bad_text") {
+                    Some(b) if b.is_object() => Some((b["reg"].as_u64().unwrap_or(0) as usize, mval::unhex(b["hex"].as_str().unwrap_or(""))?)),
+                    _ => None,
+                },
             });
         }
         let styles = j["styles"].as_array().map(|a| a.iter().map(mval::style_from_json).collect()).unwrap_or_default();
-        Ok(Case { regs, styles, steps, shared_buffer: j["shared_buffer"].as_bool().unwrap_or(false) })
+        Ok(Case { regs, styles, steps, shared_buffer: j["shared_buffer"].as_bool().unwrap_or(false), reuse_selectors: j["reuse_selectors"].as_bool().unwrap_or(false) })
     }
 
     fn size(&self, case: &Case) -> J {
@@ -473,7 +544,7 @@ impl Scenario for Chain {
     fn assumptions(&self) -> Vec<String> {
         vec![
             "tree model sim/src/model.rs (DESIGN.md Appendix A) and independent encoder/strict validator sim/src/mval.rs, hand-written from README.md, the property statements and the functions' doc comments".into(),
-            "build_object is called with strictly increasing keys; filters use only == / exists / && / || and are generated only when the run's number profile makes int/float comparison exact; no arithmetic path expressions".into(),
+            "build_object is called with strictly increasing keys (its contract for a canonical result); filters use == != < <= > >= / exists / && / || over paths and literals and are generated only when the run's number profile makes int/float comparison exact; no arithmetic path expressions".into(),
             "results larger than 400 tree nodes are checked but not written back into registers (keeps histories bounded)".into(),
             "sampling: a clean batch is evidence, not proof".into(),
         ]
@@ -487,7 +558,9 @@ impl Scenario for Chain {
         m.insert("operation_kind_bigrams_covered".into(), json!(nb));
         m.insert("operation_kind_bigrams_possible".into(), json!(CHAIN_KINDS.len() * CHAIN_KINDS.len()));
         m.insert("errors_returned".into(), stats.group("errors"));
-        m.insert("fault_kinds".into(), json!({"failing_operation (None / documented Err, registers unchanged)": stats.get("probe/failing_operation")}));
+        m.insert("fault_kinds".into(), json!({"failing_operation (None / documented Err, registers unchanged)": stats.get("probe/failing_operation"),
+            "unparsable_text_argument (malformed row; later steps judged)": stats.get("probe/unparsable_text_step"),
+            "compiled_selector_reused_across_steps": stats.get("probe/compiled_selector_reused")}));
         m.insert(
             "components".into(),
             json!({"real": ["every editing/extraction/building/path-selection pub fn of jsonb::functions", "jsonpath::Selector", "from_slice + Value::to_vec (oracle 4)"],
@@ -507,6 +580,8 @@ impl Scenario for Chain {
             "probe/empty_selection",
             "probe/text_argument_step",
             "probe/shared_buffer_history",
+            "probe/unparsable_text_step",
+            "probe/compiled_selector_reused",
         ]
     }
 }
